@@ -186,10 +186,13 @@ TPanic ==
   /\ verdict' = "C14:panic-in-lockpile:" \o Line.op
   /\ UNCHANGED <<vars, ovars, lost, nonconf>>
 
-\* The driver gave up on a schedule that became too long.
+\* The driver gave up on a schedule that became too long.  Whether the
+\* calls in flight would have returned is unknown (the schedule of the
+\* driver is not a fair one): reported as a non-conformance, never as a
+\* property failure.  It does not happen with the algorithm of LockPile.tla.
 TCut ==
   /\ IsEvent("cut")
-  /\ verdict' = "ok"
+  /\ verdict' = "NC:schedule-cut-before-all-calls-returned"
   /\ UNCHANGED <<vars, ovars, lost, nonconf>>
 
 TNext == TReset \/ TCall \/ TTry \/ TLockStart \/ TLockAcq \/ TUnlock \/ TRet
